@@ -383,3 +383,71 @@ def footprint_structural(rep, prop='C20'):
     if len(found) < 3:
         rep.checker_error(f'footprint scan found only {sorted(found)} (scan broken?)')
     rep.extra['footprint'] = {f'{k[0]}.{k[1]}': sorted(v) for k, v in found.items()}
+
+
+# ---------------------------------------------------------------------------------------------------------------------
+# finite: the per-option value screens (the uninterpreted `checkers` of the check_options contract) against the value
+# table of the documentation - "unknown options or invalid values are rejected before anything is changed"
+
+def finite_validators(payload):
+    """native: every documented valid value is accepted and every listed invalid value is refused by the real screen,
+    reached through check_options (so the table wiring _ALL_OPTION_CHECK_FUNCS is covered too)"""
+    from fst.fst_options import check_options
+    from contracts.b_options import _vals
+    good, bad = _vals()
+    out = {'checked': [], 'failures': []}
+    for opt in sorted(set(good) | set(bad)):
+        for kind, vals, want_ok in (('accepts_documented_values', good.get(opt, []), True),
+                                    ('refuses_invalid_values', bad.get(opt, []), False)):
+            key = f'check_opt.{opt}.{kind}'
+            wrong = []
+            for v in vals:
+                try:
+                    check_options({opt: v})
+                    ok = True
+                except ValueError:
+                    ok = False
+                except Exception as e:
+                    ok = None
+                    wrong.append((repr(v), repr(e)))
+                    continue
+                if ok != want_ok:
+                    wrong.append((repr(v), 'accepted' if ok else 'refused'))
+            out['checked'].append(key)
+            if wrong:
+                out['failures'].append({'key': key, 'what': f'option {opt!r}: {wrong[:4]}', 'replayed': True})
+    try:
+        check_options({'no_such_option': 1})
+        out['failures'].append({'key': 'check_opt.unknown_option_refused', 'what': 'unknown option accepted', 'replayed': True})
+    except ValueError:
+        pass
+    out['checked'].append('check_opt.unknown_option_refused')
+    return out
+
+
+def validators_finite(rep, prop='C20'):
+    from pyvc import native, frontend
+
+    class _S:
+        name = 'finite-domain evaluation of the option value screens'
+        notes = 'value table written from the documentation of FST.options() (contracts/b_options.py:_vals)'
+    try:
+        rep.function(frontend.locate('fst_options:_check_opt_pep8space'), _S)
+    except Exception:
+        pass
+    r = native.run('k_options', 'finite_validators', {})
+    failing = {f['key']: f for f in r['failures']}
+    for k in r['checked']:
+        f = failing.get(k)
+        rep.other('finite', f'{prop}.{k}', f is None, detail=(f['what'] if f else None), key=f'{prop}.{k}',
+                  replay=dict(f or {}, native_entry=('k_options', 'replay_validators')))
+    if len(r['checked']) < 30:
+        rep.checker_error('option value table shrank')
+
+
+def replay_validators(payload):
+    rep = payload.get('replay') or payload
+    r = finite_validators({})
+    key = rep.get('key', '')
+    hit = [f for f in r['failures'] if key.endswith(f['key'])]
+    return {'reproduced': bool(hit), 'failure': hit[:1]}
